@@ -84,3 +84,72 @@ fn var_remover_positions() {
         }
     }
 }
+
+// ---------------------------------------------------------------- string / blob forms (bounded stand-in for C16)
+// The Kani harnesses for xxx1-4, fnt_def1-4, pre and post_post do not finish (String::from_utf8_lossy under CBMC), so
+// these forms are exercised here instead: decode(encode(op) ++ suffix) == (op, suffix), re-encoding is the identity,
+// the operand width is minimal, and every proper prefix of an encoding is reported as truncated - never a panic.
+struct Lcg(u64);
+impl Lcg { fn next(&mut self) -> u64 { self.0 = self.0.wrapping_mul(6364136223846793005).wrapping_add(1442695040888963407); self.0 >> 33 } }
+
+fn check_form(op: &Op, expect_len: usize, what: &str) -> bool {
+    let mut b = vec![];
+    op.serialize(&mut b);
+    let mut fail = |obs: String| {
+        println!("WITNESS {{\"fn\": \"serialize\", \"unit_fns\": [\"serialize\", \"deserialize\"], \"op\": \"{}\", \"observed\": \"{}\", \"expected\": \"decode(encode(op) ++ suffix) == (op, suffix) with the minimal operand width\"}}", what, obs.replace('"', "'"));
+        false
+    };
+    if b.len() != expect_len { return fail(format!("encoded in {} bytes, minimal is {expect_len}", b.len())); }
+    let n = b.len();
+    b.extend([0xAB, 0xCD]);
+    match std::panic::catch_unwind(|| Op::deserialize(&b).map(|o| o.map(|(op, rest)| (op, rest.to_vec())))) {
+        Err(_) => return fail("decoder panicked".into()),
+        Ok(Ok(Some((got, rest)))) => {
+            if &got != op { return fail(format!("decoded a different operation: {:?}", got).chars().take(200).collect()); }
+            if rest != [0xAB, 0xCD] { return fail("wrong suffix".into()); }
+        }
+        Ok(other) => return fail(format!("{:?}", other).chars().take(200).collect()),
+    }
+    // every proper prefix: an error (truncated), not a panic and not a different operation
+    for cut in [1usize, 2, n / 2, n - 1] {
+        if cut == 0 || cut >= n { continue; }
+        let pre = b[..cut].to_vec();
+        match std::panic::catch_unwind(move || Op::deserialize(&pre).map(|o| o.is_some())) {
+            Err(_) => return fail(format!("decoder panicked on the first {cut} bytes")),
+            Ok(Ok(true)) => return fail(format!("the first {cut} of {n} bytes decode as an operation")),
+            _ => {}
+        }
+    }
+    true
+}
+
+#[test]
+fn string_forms() {
+    std::panic::set_hook(Box::new(|_| {}));
+    let mut r = Lcg(7);
+    let mut ascii = |r: &mut Lcg, n: usize| -> String { (0..n).map(|_| (32 + (r.next() % 95) as u8) as char).collect() };
+    let mut n_cases = 0u64;
+    // xxx: every length 0..=300, then the 2- and 3-byte length boundaries
+    for len in (0..=300usize).chain([65535, 65536, 70000]) {
+        let data: Vec<u8> = ascii(&mut r, len).into_bytes();
+        let width = if len < 256 { 1 } else if len < 65536 { 2 } else if len < (1 << 24) { 3 } else { 4 };
+        n_cases += 1;
+        if !check_form(&Op::Extension(data), 1 + width + len, &format!("Extension of {len} bytes")) { return; }
+    }
+    // fnt_def: area / name lengths over the whole byte range (sampled pairs), font numbers at every width boundary
+    for (al, nl) in (0..=255usize).map(|a| (a, (a * 7 + 3) % 256)).chain([(0, 0), (255, 255), (0, 255), (255, 0)]) {
+        for number in [0u32, 255, 256, 65535, 65536, (1 << 24) - 1, 1 << 24, u32::MAX] {
+            let width = if number < 256 { 1 } else if number < 65536 { 2 } else if number < (1 << 24) { 3 } else { 4 };
+            let op = Op::DefineFont { number, checksum: r.next() as u32, at_size: r.next() as u32, design_size: r.next() as u32, area: ascii(&mut r, al), name: ascii(&mut r, nl) };
+            n_cases += 1;
+            if !check_form(&op, 1 + width + 12 + 2 + al + nl, &format!("DefineFont number {number} area {al} name {nl}")) { return; }
+        }
+    }
+    // pre: every comment length
+    for len in 0..=255usize {
+        let op = Op::Preamble { dvi_format: (r.next() % 256) as u8, unit_numerator: r.next() as u32, unit_denominator: r.next() as u32, magnification: r.next() as u32, comment: ascii(&mut r, len) };
+        n_cases += 1;
+        if !check_form(&op, 15 + len, &format!("Preamble with a comment of {len} bytes")) { return; }
+    }
+    println!("STATS {{\"driver\": \"dvi string forms\", \"cases\": {n_cases}}}");
+}
